@@ -274,8 +274,87 @@ def metamodel_pass(ctx):
             log += c10.restructure_pkg(rng, rng.choice(roots))
 
 
+def failed_load_pass(ctx):
+    """a resource whose own load() was refused half-way (created with create_resource, then load() raises on a broken
+    reference at the end of the document) and that is then filled and edited: fragments resolve as for any other"""
+    import os, shutil, tempfile
+    from pyecore import ecore as E
+    from pyecore.resources import ResourceSet, URI
+    from pyecore.resources.json import JsonResource
+    n = 20 if ctx.quick() else 300
+    tmp = tempfile.mkdtemp(prefix='verif_c11_')
+    try:
+        for k in range(n):
+            rng = common.sub_rng(ctx.seed, 'C11', 'failed-load', k)
+            fmt = 'xmi' if k % 2 == 0 else 'json'
+            pk = E.EPackage('fl', f'http://verif/fl{k}', 'fl')
+            A = E.EClass('A')
+            pk.eClassifiers.append(A)
+            A.eStructuralFeatures.extend([E.EAttribute('name', E.EString), E.EReference('kids', A, upper=-1, containment=True),
+                                          E.EReference('friend', A)])
+
+            def rs():
+                r = ResourceSet()
+                r.resource_factory['json'] = lambda uri: JsonResource(uri)
+                r.metamodel_registry[pk.nsURI] = pk
+                return r
+            root = A(name='root')
+            kids = [A(name=f'k{i}') for i in range(rng.randint(3, 5))]
+            root.kids.extend(kids)
+            for c in kids:
+                c.friend = rng.choice(kids)
+            path = os.path.join(tmp, f'fl{k}.{fmt}')
+            w = rs().create_resource(URI(path))
+            w.append(root)
+            w.save()
+            text = open(path, encoding='utf-8').read()
+            # the last reference of the document names a position that does not exist
+            idx = text.rfind('@kids.')
+            if idx < 0:
+                continue
+            text = text[:idx] + '@kids.99' + text[idx + len('@kids.') + 1:]
+            open(path, 'w', encoding='utf-8').write(text)
+            res = rs().create_resource(URI(path))
+            try:
+                res.load()
+                ctx.count('failed-load/loaded-anyway')
+                continue
+            except Exception:
+                pass
+            ctx.evaluations += 1
+            ctx.count(f'failed-load/{fmt}')
+            # the resource object is still the caller's: it is (re)filled and edited
+            for r0 in list(res.contents):
+                res.remove(r0)
+            top = A(name='top')
+            res.append(top)
+            cs = [A(name=f'c{i}') for i in range(4)]
+            top.kids.extend(cs)
+            for step in range(4):
+                objs = [top] + list(top.kids)
+                bad = None
+                for o in objs:
+                    try:
+                        got = res.resolve(o.eURIFragment())
+                    except Exception as e:
+                        got = f'raised {type(e).__name__}'
+                    if got is not o:
+                        bad = f'{o.name}: fragment {o.eURIFragment()!r} resolves to {getattr(got, "name", got)!r}'
+                        break
+                ctx.nontriv(('failed-load', k, step))
+                if bad:
+                    ctx.violate({'clause': 'resolve', 'after_failed_load': True, 'format': fmt},
+                                f'resolve: in a resource whose load() had been refused, after {step} edit(s): {bad}',
+                                {'failed_load': k, 'format': fmt})
+                    return
+                top.kids.insert(0, A(name=f'n{step}'))
+    finally:
+        shutil.rmtree(tmp, ignore_errors=True)
+
+
 def run(ctx):
     common.use_repo()
+    failed_load_pass(ctx)
     n = 250 if ctx.quick() else 4000
     nops = 25 if ctx.quick() else 40
     ctx.rule = (f'{n} containment-heavy histories (<= {nops} ops: insert/remove/pop/move at all positions, 1-3 resources, roots '
